@@ -18,7 +18,7 @@ TAGS = {
     "C02": {"C02", "OPEN"},
     "C03": {"C03"},
     "C07": {"C01", "C02", "PANIC", "HANG"},
-    "C08": {"C01", "C02", "PANIC", "HANG"},
+    "C08": {"C01", "C02", "C06", "PANIC", "HANG"},
     "C09": {"C01", "C02", "C10", "PANIC", "HANG", "C03.R7order", "C03.R7names"},
     "C10": {"C10"},
     "C15": {"C15"},
@@ -402,6 +402,9 @@ def check_c08(tier, seed):
     # the same under a backend that transfers a few bytes at a time: zero filling must not rely on full writes
     hs2 = [dict(h, id=h["id"] + "_chunked", backend={"kind": "mem", "chunks": [[7], [1, -1], [512, 3]][i % 3]}) for i, h in enumerate(hs[::2])]
     run_batch(out, "random-chunked", "A", hs2)
+    # through one long-lived handle (window filled before the shrink), judged by the handle model
+    from . import hgens
+    run_batch(out, "handle", "A", hgens.c08_handle_histories(tier), spec="Trace_Handle", driver="hdrive")
     return finish(out, "model_checking",
                   "CfbTree.SetLen extends with a zero run; all writes use fresh non-zero fill bytes so stale data is a mismatch in api / Abs(img) / reopen dumps. "
                   "T1 write-shrink-grow triples, T2 reuse after remove/shrink (with/without pinned mini-stream tail), T3 across migrations",
